@@ -471,6 +471,7 @@ FitsIdle(j) ==
 C05_WorkConserving ==
   (JustAfterAllocate /\ ~failed) => \A j \in Jobs :
      (/\ AllPending(j) /\ Untouched(j) /\ Cardinality(PodsOf(j)) >= J(j).min /\ J(j).min >= 1
+      /\ J(j).queue \in Queues          \* (a pod group whose queue does not exist is not schedulable)
       /\ \A p \in PodsOf(j) : ~IsSharing(p) /\ Unconstrained(p)
       /\ QueueRulesAllow(j))
      => ~FitsIdle(j)
